@@ -11,13 +11,26 @@ import (
 
 var c01Lens = []int{0, 1, 2049, 2047, 2048, 32767, 32768, 32769, 65537}
 
+var c01Long bool
+
+// VerifH01L: every boundary length (around the 2048-byte chunk and the 32 KiB copy buffer), two steps.
+func VerifH01L() {
+	c01Long = true
+	VerifH01()
+}
+
 // VerifH01: autocommit round trips over the assembled stack; contents are symbolic bytes.
 // Every step is followed by a full read-back, so histories shorter than the bound are covered
 // as prefixes.
 func VerifH01() {
 	k, nl, nk := 3, 3, 2
 	if nd.Tier() == 1 {
-		k, nl, nk = 3, len(c01Lens), 3
+		// thorough: three keys with the short lengths over 3 steps, or (VerifH01L) every boundary
+		// length over 2 steps
+		k, nl, nk = 3, 3, 3
+	}
+	if c01Long {
+		k, nl, nk = 2, len(c01Lens), 2
 	}
 	nd.Bound("H01.steps", k)
 	nd.Bound("H01.lengths", nl)
